@@ -164,6 +164,35 @@ func runPool(c *caseIn, out *caseOut) {
 		}
 		time.Sleep(time.Duration(rd.IdleMs) * time.Millisecond)
 	}
+	// exclusive ownership: a connection that went back to the pool is handed to ONE user at a time, also when its previous user
+	// releases it a second time (Release is called from deferred clean-up paths as well as from the forwarder's normal end).
+	// Two users of one connection would each drop the other's frames as foreign-tunnel frames: bytes written would not arrive.
+	if prev != nil && out.PropOK {
+		prev.Release()
+		type getRes struct {
+			cn  *crossnode.Conn
+			err error
+		}
+		gch := make(chan getRes, 2)
+		for k := 0; k < 2; k++ {
+			cn, err := pool.Get(context.Background())
+			gch <- getRes{cn, err}
+		}
+		a, b := <-gch, <-gch
+		if a.err == nil && b.err == nil && a.cn == b.cn {
+			out.fail("pool-exclusive-ownership", "after %d rounds the last connection was released (and released once more by its previous user): two consecutive NodeConnectionPool.Get calls, neither connection given back in between, returned the SAME *Conn — two tunnels would share one connection and each FrameStream.Read would discard the other's frames",
+				len(c.Rounds))
+		}
+	drain:
+		for {
+			select {
+			case cn := <-accepted:
+				cn.Close()
+			case <-time.After(20 * time.Millisecond):
+				break drain
+			}
+		}
+	}
 	// with nothing left unread on the connection and no faults, every later round must have reused the pooled connection
 	for i, r := range out.Reused {
 		if i > 0 && !r && c.Rounds[i-1].Residual == "" {
